@@ -727,6 +727,10 @@ func verifReadPatchFaithful(a, b, c JsonNode) bool {
 	return true
 }
 
+// verifReadPatchContext (C10): the same statement over documents whose lists carry context lines
+// (null context values, keys that need pointer escaping) and targets that differ from a only there.
+func verifReadPatchContext(a, b, c JsonNode) bool { return verifReadPatchFaithful(a, b, c) }
+
 // ---------------------------------------------------------------------
 // C11 / C12: RFC 7386.
 
